@@ -1402,7 +1402,7 @@ func (c *templCtx) fixedPointSweep() {
 		{"{c:numeric}", []colDesc{{name: "c", f: jsonline.Numeric}}},
 		{"{c:auto}", []colDesc{{name: "c", f: jsonline.Auto}}},
 	}
-	values := append(append([]string{}, sweepValues...), sweepMore...)
+	values := append(append(append([]string{}, sweepValues...), sweepMore...), sweepSized...)
 	for _, f := range allFormats {
 		for _, t := range append([]string{""}, typeNames...) {
 			out := []colDesc{{name: "c", f: f, typName: t}}
@@ -1446,9 +1446,91 @@ func (c *templCtx) fixedPointSweep() {
 	}
 }
 
+// a wide template: twenty columns of every format (the 17th column is a column like the others), lines that fill
+// them in several orders, with undeclared keys in between
+func (c *templCtx) wideTemplate() {
+	var cols []colDesc
+	for i := 0; i < 20; i++ {
+		f := allFormats[i%len(allFormats)]
+		cols = append(cols, colDesc{name: fmt.Sprintf("c%02d", i), f: f})
+	}
+	tpl := buildTemplate(cols)
+	val := func(f jsonline.Format, k int) string {
+		switch f {
+		case jsonline.Numeric, jsonline.Timestamp:
+			return fmt.Sprint(1600000000 + k)
+		case jsonline.Boolean:
+			return "true"
+		case jsonline.Binary:
+			return `"AQID"`
+		case jsonline.Date:
+			return `"2021-09-24"`
+		case jsonline.DateTime:
+			return `"2021-09-24T10:11:12Z"`
+		}
+		return fmt.Sprintf(`"v%d"`, k)
+	}
+	for order := 0; order < 4; order++ {
+		var parts []string
+		for k := range cols {
+			i := k
+			switch order {
+			case 1:
+				i = len(cols) - 1 - k
+			case 2:
+				i = (k*7 + 3) % len(cols)
+			case 3:
+				if k%3 == 2 {
+					continue // some columns missing
+				}
+			}
+			parts = append(parts, fmt.Sprintf(`"%s":%s`, cols[i].name, val(cols[i].f, i)))
+			if k%5 == 4 {
+				parts = append(parts, fmt.Sprintf(`"extra%d":[%d]`, k, k))
+			}
+		}
+		line := "{" + strings.Join(parts, ",") + "}"
+		var row jsonline.Row
+		var err error
+		if p, _ := guard(func() { row, err = tpl.GetImporter(strings.NewReader(line)).ReadOne() }); p || err != nil || row == nil {
+			c.violate("C04", fmt.Sprintf("wide template: a line of well-typed values is refused: %v", err), map[string]interface{}{"stream": "template", "line": line})
+			continue
+		}
+		L, eerr, nw, p, _ := exportOnce(tpl, row)
+		if eerr != nil || p {
+			continue
+		}
+		ctx := map[string]interface{}{"stream": "template", "input_template": descString(cols), "output_template": descString(cols), "line": line, "tz": os.Getenv("TZ")}
+		save, saveL := c.enc, c.encL
+		c.enc, c.encL = map[string]bool{}, nil
+		c.judgeOutput(cols, cols, true, line, L, nw, ctx, tpl)
+		c.enc, c.encL = save, saveL
+	}
+}
+
 // more values for the sweep: numbers beyond float64, fractional / exponent timestamps, date look-alikes
 // with one-digit fields, control characters Go and JSON quote differently, arrays and objects whose
 // members are not in alphabetical order
+// (shapes with an exact size: strings of 4095 / 4096 / 65535 / 65536 bytes, arrays of 1 and 256 elements, nesting 16 and 64)
+var sweepSized = func() []string {
+	var out []string
+	for _, n := range []int{4095, 4096, 65535, 65536} {
+		out = append(out, `"`+strings.Repeat("s", n)+`"`)
+	}
+	var sb strings.Builder
+	sb.WriteString("[")
+	for i := 0; i < 256; i++ {
+		if i > 0 {
+			sb.WriteString(",")
+		}
+		fmt.Fprintf(&sb, "%d", i)
+	}
+	sb.WriteString("]")
+	out = append(out, sb.String(), `[7]`, strings.Repeat("[", 16)+strings.Repeat("]", 16), strings.Repeat("[", 64)+strings.Repeat("]", 64),
+		strings.Repeat(`{"k":`, 16)+`1`+strings.Repeat("}", 16), `"{\"a\":1}"`, `"[1,2]"`, `-1.5E+3`, `1E-2`, `"+1.5e3"`)
+	return out
+}()
+
 var sweepMore = []string{`"\\u003c"`, `"a\\u0026b\\\\u003e"`, `"2021-09-24 "`, `" 2021-09-24"`, `"2021-09-24\t"`, `1e21`, `1.2345678901234568e+29`, `123456789012345678901234567890`, `18446744073709551615`, `9223372036854775808`, `"2023/02/03"`, `"2023.02.03"`, `"03/02/2023"`, `"2023-02-03Z"`, `"a\n\n"`, `"w\r\n\r\n"`, `"\n"`, `" x "`, `200000000000000`, `100000000000000`, `-200000000000000`, `253402300799`, `253402300800`, `253402250400`, `253402214400`, `-62167219200`, `-62167219201`, `-62167180000`, `-62167250000`, `"9999-12-31T23:30:00-01:00"`, `"0000-01-01T00:30:00+01:00"`, `1e400`, `-1E+999`, `1e-400`, `1632823189.5`, `1.6e9`, `0.0`, `"2021-9-4"`, `"2021-09-4"`, `"2021-9-04"`, `"21-09-24"`,
 	`"2021-09-24T10:11:12"`, `"2021-09-24 10:11:12Z"`, `"a\u0007b"`, `"\u000b"`, `"\u007f"`, `"\u0000"`, `"\ud83d\ude00"`, `"\u2028"`,
 	`[]`, `[1,"a",null]`, `{}`, `{"z":1,"a":2}`, `{"z":{"n":1,"b":[{"y":1,"x":2}]},"a":null,"m":"t"}`, `" 1"`, `"0x10"`, `"+5"`, `".5"`, `"5."`, `"007"`, `"NaN"`, `"Infinity"`,
@@ -1511,6 +1593,7 @@ func templateStream(seed uint64, tier string, outDir string, props map[string]bo
 	}
 	if props["C05"] || props["C04"] || props["C03"] || props["C01"] || props["C14"] {
 		c.fixedPointSweep()
+		c.wideTemplate()
 	}
 	return rep
 }
